@@ -69,6 +69,10 @@ def gen_enum_programs(tier, seed):
     progs = []
     rng = random.Random(seed)
     cases = []
+    # a single encodable variant (alone, or next to skipped ones): the range check must not depend on there being a pair
+    for k in (0, 255, 256, 300):
+        cases.append([{'skip': False, 'attr': k, 'discr': None}])
+        cases.append([{'skip': True, 'attr': None, 'discr': None}, {'skip': False, 'attr': k, 'discr': None}])
     # systematic: two variants, every pair of (source, k) x (source, k); plus a skipped collider
     srcs = ['implicit', 'attr', 'discr']
     for sa, sb in itertools.product(srcs, srcs):
@@ -118,7 +122,7 @@ def gen_enum_programs(tier, seed):
         progs.append({'name': 'enum_%03d' % len(progs), 'kind': 'enum-index', 'variants': vs, 'expect': verdict(vs), 'body': enum_src('E', vs)})
     if tier == 'quick':
         # keep the systematic part, cap the total
-        progs = progs[:70]
+        progs = progs[:78]
     return progs
 
 
@@ -159,6 +163,10 @@ def gen_attr_programs():
     progs.append({'name': 'compactas_enum', 'kind': 'compactas', 'expect': 'reject', 'body': ca + 'pub enum C { A(u32) }\n'})
     progs.append({'name': 'compactas_unit', 'kind': 'compactas', 'expect': 'reject', 'body': ca + 'pub struct C;\n'})
     progs.append({'name': 'compactas_two', 'kind': 'compactas', 'expect': 'reject', 'body': ca + 'pub struct C(u32, u16);\n'})
+    # several non-skipped fields of the SAME type (a type mismatch must not be what rejects them)
+    progs.append({'name': 'compactas_two_same', 'kind': 'compactas', 'expect': 'reject', 'body': ca + 'pub struct C(u32, u32);\n'})
+    progs.append({'name': 'compactas_two_same_named', 'kind': 'compactas', 'expect': 'reject', 'body': ca + 'pub struct C { a: u64, b: u64 }\n'})
+    progs.append({'name': 'compactas_three_same_skip', 'kind': 'compactas', 'expect': 'reject', 'body': ca + 'pub struct C(u16, #[codec(skip)] u8, u16);\n'})
     progs.append({'name': 'compactas_one', 'kind': 'compactas', 'expect': 'accept', 'body': ca + 'pub struct C(u32);\n'})
     progs.append({'name': 'compactas_one_skip', 'kind': 'compactas', 'expect': 'accept', 'body': ca + 'pub struct C(u32, #[codec(skip)] u16);\n'})
     progs.append({'name': 'compactas_named_skip', 'kind': 'compactas', 'expect': 'accept', 'body': ca + 'pub struct C { #[codec(skip)] a: u8, b: u64 }\n'})
